@@ -358,6 +358,24 @@ def run(ctx: Context) -> None:
                 ctx.check('R01.2', ok, "grid_shape[kind] = tuple(dataset.sizes[d] for d in grid_dimensions[kind]) for kind in grid_kinds, in order "
                           "(a mesh may instead list, kind by kind, the topology's count of that kind's own dimension)", fi, r,
                           construct=f"grid_shape = {detail}")
+        # a mesh can name an edge dimension that no variable is defined on: its shape must come from the topology's counts
+        # (edge_count falls back to the derived edge table), not from dataset.sizes
+        for cls in concrete:
+            gd_ = p.resolve_method(cls, 'grid_dimensions')
+            gs_ = p.resolve_method(cls, 'grid_shape')
+            if gd_ is None or gs_ is None:
+                continue
+            topo_dims = [n for n in ast.walk(gd_.node) if isinstance(n, ast.Attribute) and n.attr.endswith('_dimension') and norm_text(n.value) == 'self.topology']
+            kinds_ = {n.attr[:-len('_dimension')] for n in topo_dims}
+            topo_cls = p.cls('emsarray.conventions.ugrid.Mesh2DTopology')
+            derived = [k for k in sorted(kinds_) if topo_cls is not None and f"{k}_count" in topo_cls.methods and len(topo_cls.methods[f"{k}_count"].returns()) > 1]
+            if not derived:
+                continue
+            reads_sizes = any(isinstance(n, ast.Attribute) and n.attr == 'sizes' for n in ast.walk(gs_.node))
+            ctx.check('R01.2', not reads_sizes and gs_.cls is not None and gs_.cls.qualname != base.qualname,
+                      f"{cls.short}: the length of the {', '.join(derived)} grid can be derived by the topology when the dataset has no such dimension, so grid_shape answers from "
+                      "the topology's counts and never looks that dimension up in dataset.sizes (grid_size, ravel_index, wind_index of every kind would raise KeyError)", gs_, gs_.node,
+                      construct=f"{cls.short}.grid_shape is {gs_.short}; reads dataset.sizes: {reads_sizes}")
         for fi in p.implementations(base, 'grid_size'):
             flow = ctx.flow(fi)
             for r in fi.returns():
@@ -513,6 +531,7 @@ VARIANTS = [
     V('C01', 'ugrid-unpack-const-kind', _U, "    def unpack_index(self, index: UGridIndex) -> tuple[UGridKind, Sequence[int]]:\n        return index[0], index[1:]", "    def unpack_index(self, index: UGridIndex) -> tuple[UGridKind, Sequence[int]]:\n        return UGridKind.face, index[1:]", 'R01.1'),
     V('C01', 'cfgrid-pack-reversed', _G, "        return cast(CFGridIndex, indexes)", "        return cast(CFGridIndex, tuple(reversed(indexes)))", 'R01.1'),
     V('C01', 'negative-index-wraps-in-select', _B, "        if (index_array < 0).any():\n            raise ValueError(\"Indexes must not be negative\")\n", "", 'R01.10'),
+    V('C01', 'mesh-shape-from-dataset-sizes', _U, "    @property\n    def grid_shape(self) -> dict[UGridKind, Sequence[int]]:", "    @property\n    def _unused_grid_shape(self) -> dict[UGridKind, Sequence[int]]:", 'R01.2'),
     V('C01', 'mesh-shape-kinds-crossed', _U, "            UGridKind.node: (self.topology.node_count,),\n            UGridKind.face: (self.topology.face_count,),", "            UGridKind.node: (self.topology.face_count,),\n            UGridKind.face: (self.topology.node_count,),", 'R01.2'),
     V('C01', 'mesh-shape-edge-unguarded', _U, "        if self.topology.has_edge_dimension:\n            shape[UGridKind.edge] = (self.topology.edge_count,)\n        return shape", "        shape[UGridKind.edge] = (self.topology.edge_count,)\n        return shape", 'R01.2'),
     V('C01', 'lone-coordinate-name-ignored', 'src/emsarray/conventions/grid.py', "        if latitude is not None or longitude is not None:", "        if latitude is not None and longitude is not None:", 'R01.9'),
